@@ -385,6 +385,10 @@ func scenING(s *sched.Sim, cfg Config, res *Result) {
 		take = len(cases)
 	}
 	probeWant := env.reference(probe)
+	unknownLen := make([]bool, take)
+	for i := range unknownLen {
+		unknownLen[i] = s.T.Bool(1, 3)
+	}
 	done := false
 	var ran []string
 	s.Go("client", func() {
@@ -399,6 +403,12 @@ func scenING(s *sched.Sim, cfg Config, res *Result) {
 			}
 			r := httptest.NewRequest(http.MethodPost, "/graphql", body)
 			r.ContentLength = int64(len(c.body))
+			if unknownLen[i] {
+				// chunked transfer: no declared length
+				r.ContentLength = -1
+				r.TransferEncoding = []string{"chunked"}
+				res.Probe("ing.undeclared-content-length")
+			}
 			if c.contentType != "" {
 				r.Header.Set("Content-Type", c.contentType)
 			} else {
